@@ -65,15 +65,15 @@ func bitfieldOf(idx []int) bitfield.BitField {
 
 type injector struct {
 	adversary.Absent
-	e       *env
-	host    adversary.Host
-	id      gpbft.ActorID
-	variant int
-	targetK uint64
-	simRef  **sim.Simulation
+	e           *env
+	host        adversary.Host
+	id          gpbft.ActorID
+	variant     int
+	targetK     uint64
+	simRef      **sim.Simulation
 	expectError bool
-	what    string
-	done    bool
+	what        string
+	done        bool
 }
 
 func (in *injector) AllowMessage(gpbft.ActorID, gpbft.ActorID, gpbft.GMessage) bool { return true }
